@@ -16,9 +16,10 @@ BOUNDS = {'WRITE#/INPUT# strings': '2 strings of length 0..2 (quick) / 0..3 (tho
                                    'the quote, NUL and the end-of-file byte 1A (the property excludes them)',
           'WRITE#/INPUT# integers': '2 integers, every value 0..32767 each; every negative value followed by 7',
           'PRINT#/LINE INPUT#': '2 lines of length 0..3, every byte except CR, LF and 1A',
+          'long fields': 'one field of 253, 254 or 255 bytes (each >= 65: no separator bytes) followed by a field of 0..1 bytes',
           'APPEND': 'old content of 0..3 symbolic bytes (no 1A), one line appended, everything read back',
           'file handle': 'symx SymIO in the symbolic run, io.BytesIO in the concrete run',
-          'outside': 'floats (decimal conversion, C07/C08), fields of 255 characters, the disk device layer '
+          'outside': 'floats (decimal conversion, C07/C08), the disk device layer '
                      '(host files, CR/LF options, stripping of the end-of-file byte on APPEND in disk.py), '
                      'OPEN/CLOSE statements (the TextFile objects are constructed directly), WIDTH on files'}
 ASSUMPTIONS = ['z3 decides the formulas', 'symx models validated per path']
@@ -190,6 +191,35 @@ def body_append(h):
     return [data]
 
 
+def body_write_long(h):
+    """a field of 253..255 characters (letters and graphics only: no separator bytes) and a short one"""
+    F = h.P.basic.devices.files._module()
+    vals = mk_values_s(h)
+    n = h.params['n']
+    s1 = h.bytes('s', n)
+    for b in list(s1):
+        h.assume(b >= 65)
+    s2, i2 = _sym_len_bytes(h, 't', 1, (0x22, 0, 0x1a))
+    i1 = list(s1)
+    h.fact('field_of_255', n == 255)
+    fh = _fh(h)
+    out = _open(h, fh, b'O')
+    one = mk_num(h, vals, bytes([1, 0]))
+    res = h.call(F.Files.write_, _FakeFiles(out), iter([one, mk_str(h, vals, s1), mk_str(h, vals, s2)]))
+    h.require('write-accepted', res[0] == 'ok', res)
+    out.close()
+    inp = _reopen(h, fh, b'I')
+    r1 = h.call(inp.input_entry, STR, False)
+    h.require('first-read-ok', r1[0] == 'ok', r1)
+    h.require('long-string-back', s_and(len(r1[1][0]) == n, bytes_eq(r1[1][0], i1)), len(r1[1][0]))
+    h.require('not-eof-after-long-field', s_not(inp.eof()))
+    r2 = h.call(inp.input_entry, STR, False)
+    h.require('item-after-long-field-read', r2[0] == 'ok', r2)
+    h.require('item-after-long-field-back', s_and(len(r2[1][0]) == len(i2), bytes_eq(r2[1][0], i2)), r2[1][0])
+    h.require('eof-after-item-after-long-field', inp.eof())
+    return [len(r1[1][0]), list(r2[1][0])]
+
+
 def cases(tier):
     m = 3 if tier == 'thorough' else 2
     return [
@@ -199,4 +229,5 @@ def cases(tier):
         Case('print-line-input', body_lines, params={'maxlen': 3 if tier == 'thorough' else 2}, timeout_s=3000,
              max_paths=200000),
         Case('append', body_append, timeout_s=1000),
+    ] + [Case('write-input-long-%d' % n, body_write_long, params={'n': n}, timeout_s=1800) for n in (253, 254, 255)] + [
     ]
